@@ -71,7 +71,6 @@ type closure struct {
 
 type bad struct{}
 
-
 //SYMCUT
 // reflect.Value struct values don't have a fixed shape, since the
 // payload can be a scalar or an aggregate depending on the instance.
@@ -245,4 +244,3 @@ func (it *stringIter) next() tuple {
 	it.i += n
 	return okv
 }
-
